@@ -312,8 +312,11 @@ def make_atoms(case):
     import numpy as np
     from ase import Atoms
 
-    return Atoms(numbers=case["numbers"], positions=np.array(case["pos"], dtype=float),
-                 cell=np.array(case["cell"], dtype=float), pbc=True)
+    atoms = Atoms(numbers=case["numbers"], positions=np.array(case["pos"], dtype=float),
+                  cell=np.array(case["cell"], dtype=float), pbc=True)
+    if case.get("custom_masses"):
+        atoms.set_masses(case["masses"])  # isotopes / user-set masses: the centre of mass is that of THESE masses
+    return atoms
 
 
 def flat(a):
@@ -403,6 +406,9 @@ class DisplacementOps(common.Suite):
                     op["s"] = loguniform(rng, 1e-6, 1e3)
             case = {"op": op, "cell": cell, "pos": pos, "numbers": numbers, "moving": moving, "geom": geom,
                     "masses": masses_of(numbers), "moving_array": rng.random() < 0.5}
+            if rng.random() < 0.35:
+                case["custom_masses"] = True
+                case["masses"] = [m * rng.choice([1.0, 2.0, 0.5, 3.0]) + rng.choice([0.0, 1.0]) for m in case["masses"]]
             if k < n_scripted:
                 case["mode"] = "scripted"
                 case["draws"] = gen_draws(rng, draw_pattern(op))
